@@ -28,6 +28,7 @@ pub fn families(prop: &str, tier: Tier) -> Vec<Cfg> {
         x.io = IoMenu::benign();
         x.broker.may_lose_session = true;
         x.broker.connack_extras = vec![0, 1, 2, 3, 4, 5, 6];
+        x.keepalive = 60;
         x.rx = 128;
         x.max_ops = if q { 6 } else { 8 };
         x.max_conns = if q { 3 } else { 4 };
@@ -88,6 +89,8 @@ pub fn families(prop: &str, tier: Tier) -> Vec<Cfg> {
         x.io = IoMenu::benign();
         x.broker.may_lose_session = true;
         x.broker.receive_max = vec![Some(2)];
+        // (keep-alive armed: most other families run with keep-alive off)
+        x.keepalive = 60;
         x.max_ops = if q { 9 } else { 11 };
         x.max_conns = 5;
         x.max_reqs = 2;
